@@ -146,6 +146,8 @@ def handle (model : String) : List String → String
       | some 0, some _ => "SPEC key=process-crashed (under the race detector)"
       | some n, _ => s!"SPEC key=data-race reports={n} {" ".intercalate (kvs.filter (·.startsWith "at="))}"
       | _, _ => "BAD race fields"
+  | "storm" :: rest =>
+    s!"SPEC key=request-storm the client sent more than 150000 requests in one scenario (a retry loop without back-off) {" ".intercalate rest}"
   | "crash" :: _ => "SPEC key=process-crashed (panic or fatal error in the client under concurrent failures)"
   | "conc" :: kvs =>
     match field kvs "hung", field kvs "hungcalls", field kvs "postfail", field kvs "unavailable",
